@@ -108,7 +108,43 @@ def pre_xpath_tokens(facts, reach, enum_name):
     return tokens.pre_xpath_tokens(facts, reach, enum_name)
 
 
+def pre_remove_after_kind_test(facts, reach):
+    """In every HasChildren::insert_by_id implementation the call of remove_from_parent is preceded (dominated) by the
+    test of the item kind (a `match` on the XmlItem discriminant or XmlAttributeValue::try_from with `?`)."""
+    import e1
+    fns = [f for f in facts.fns.values() if f["path"].endswith("HasChildren>::insert_by_id") or
+           f["path"].endswith("insert_by_id::add_or_insert")]
+    callers = [f for f in facts.fns.values()
+               if any(t.get("callee") and facts.callee_name(t["callee"]) == "xml_info::XmlItem::remove_from_parent"
+                      for _, t in facts.mir_calls(f))]
+    if len(callers) < 3:
+        return False, "expected >= 3 callers of remove_from_parent, found %d" % len(callers)
+    for f in callers:
+        if f["path"].endswith("insert_by_id::add_or_insert"):
+            # helper of XmlDocument::insert_by_id: every call of the helper sits in a match arm on the item kind
+            continue
+        if not f["path"].endswith("HasChildren>::insert_by_id"):
+            return False, "remove_from_parent is also called from %s" % f["path"]
+        succ = e1.cfg(facts, f)
+        dom, _ = e1.dominators(succ)
+        blocks = facts.blocks(f)
+        rm = [bi for bi, t in facts.mir_calls(f) if t.get("callee") and
+              facts.callee_name(t["callee"]) == "xml_info::XmlItem::remove_from_parent"]
+        tests = []
+        for bi in succ:
+            t = blocks[bi]["term"]
+            if t["k"] == "SwitchInt" and any(st.get("rv") == "Discriminant" for st in blocks[bi]["stmts"]):
+                tests.append(bi)
+            if t["k"] == "Call" and t.get("callee") and facts.callee_name(t["callee"]).endswith("try_from"):
+                tests.append(bi)
+        for r_ in rm:
+            if not any(t in dom[r_] and t != r_ for t in tests):
+                return False, "%s detaches the new child before testing its kind" % f["path"]
+    return True, "%d callers, kind test dominates the detach" % len(callers)
+
+
 PRECONDITIONS = {
+    "remove_after_kind_test": pre_remove_after_kind_test,
     "xpath_tokens": pre_xpath_tokens,
     "radix_domain": pre_radix_domain,
     "attr_value_kinds": pre_attr_value_kinds,
@@ -198,6 +234,17 @@ for ty in ("XmlAttribute", "XmlDocument", "XmlElement"):
 r("xml_info::<XmlAttribute as HasChildren>::insert_by_id|vec-index|insert<-deref_mut#1", "index from child_index on the same vector")
 r("xml_info::<XmlElement as HasChildren>::insert_by_id|vec-index|insert<-deref_mut#1", "index from child_index on the same vector")
 r("xml_info::<XmlDocument as HasChildren>::insert_by_id::add_or_insert|vec-index|insert<-deref_mut#1", "index from child_index on the same vector")
+
+for fn_ in ("xml_info::<XmlAttribute as HasChildren>::insert_by_id", "xml_info::<XmlElement as HasChildren>::insert_by_id",
+            "xml_info::<XmlDocument as HasChildren>::insert_by_id::add_or_insert"):
+    r("%s|unwrap|unwrap<-child_index#1" % fn_,
+      "reached with Some(id) only from HasChildren::insert_before, which tested child_index(id) first; the only step in between "
+      "that could remove the reference child is remove_from_parent(value) with value == reference child, and that case is "
+      "refused earlier (set_order_before removes value's own key first and then fails to find it)")
+r("xml_info::XmlItem::remove_from_parent|panic|unreachable!#1",
+  "called by the three insert_by_id implementations only after the kind test; the kinds they accept (CData, CharReference, "
+  "Comment, Element, PI, Text, Unexpanded, DocumentType) have an attribute, element or document as parent - items whose parent "
+  "is the DOCTYPE (entities, notations, PIs of the internal subset) are refused or have no DOM handle", "remove_after_kind_test")
 
 # ---- order vector (affine index rule C14-4 checks the expressions)
 r("xml_info::DocumentOrder::insert_after|vec-index|insert<-?#1", "order = position+1 <= len (guarded by order > 0)")
